@@ -143,7 +143,8 @@ Qed.
             the pre-iteration (sweep count 0) by the value computed on the tensor Yold entering the first sweep; the
             driver then evaluates one batch, folds the unit factor into core 0 and recomputes the reported number
      nswp   info.nswp = nswp exactly
-     cb     the callback returned true for this sweep number and the conv rule did not fire
+     cb     the callback returned a true value (truthiness, `if cb(...)`) for this sweep number and the conv rule
+            did not fire
      conv   m_cache > scale * m *)
 Theorem C06_stop_contract : forall fuel s,
   Y0_ok pones C -> pick_ok pick -> crossm fuel = Ok s ->
